@@ -57,6 +57,38 @@ def delegate_of(fi: FuncInfo, res: Resolver) -> FuncInfo | None:
     return None
 
 
+def check_plain_emit_and_elementwise(run: Run) -> None:
+    run.rule("R14.6", "every OCTAVE rendering produced by project() is the plain canonical emission of the (projected) document: emit(<doc>) with one argument and no format options (post-emission formatting rewrites lines inside literal zones)", 3)
+    run.rule("R14.7", "list values are converted element by element: the ListValue branch of each value converter returns one output element per item of value.items (a comprehension over .items without filter), never a merge of the items", 2)
+    pj = run.project.mod("core.projector")
+    fi = pj.func("project")
+    n = 0
+    for c in walk_no_nested(fi.node):
+        if isinstance(c, ast.Call) and ast.unparse(c.func) == "emit":
+            n += 1
+            ok = len(c.args) == 1 and not c.keywords
+            run.instance("R14.6", pj.loc(c), f"project: `{norm(c)}`", ok=ok)
+            if not ok:
+                run.violation("R14.6", pj, "project", f"emit with options: {norm(c)[:60]}", f"project() renders with `{norm(c)[:70]}`: format options post-process the emitted text line by line (trailing whitespace, blank-line squeezing, blank lines before §-looking lines) including the content of literal zones, so this rendering shows values the document does not have while reporting lossy=false, and disagrees with the JSON/YAML renderings")
+    if n < 3:
+        raise AnalysisError(f"project(): only {n} emit() call(s) found")
+    ej = run.project.mod("mcp.eject")
+    for q in ("_convert_value", "_format_markdown_value"):
+        f2 = ej.func(q)
+        branches = [b for b in walk_no_nested(f2.node) if isinstance(b, ast.If) and "isinstance" in ast.unparse(b.test) and "ListValue" in ast.unparse(b.test)]
+        if not branches:
+            raise AnalysisError(f"{q}: ListValue branch not found")
+        for b in branches:
+            comps = [x for st in b.body for x in ast.walk(st) if isinstance(x, (ast.ListComp, ast.GeneratorExp))]
+            elementwise = [x for x in comps if len(x.generators) == 1 and ast.unparse(x.generators[0].iter).endswith(".items") and not x.generators[0].ifs]
+            merges = [x for st in b.body for x in ast.walk(st) if isinstance(x, ast.Call) and isinstance(x.func, ast.Attribute) and x.func.attr in ("update", "setdefault") or isinstance(x, ast.DictComp)]
+            rets = [x for st in b.body for x in ast.walk(st) if isinstance(x, ast.Return)]
+            ok = bool(elementwise) and not merges and len(rets) == 1
+            run.instance("R14.7", ej.loc(b), f"{q}: ListValue branch: {len(elementwise)} element-wise comprehension(s), {len(merges)} merge operation(s), {len(rets)} return(s)", ok=ok)
+            if not ok:
+                run.violation("R14.7", ej, q, "ListValue branch is not element-wise", f"the ListValue branch of {q} does not map value.items one to one (merge operations: {len(merges)}, returns: {len(rets)}): items are merged or dropped - e.g. [REGEX::\"a\", REGEX::\"b\"] collapses to one key - while the projection reports lossy=false")
+
+
 def check(run: Run) -> None:
     res = Resolver(run.project)
     am = AstModel(run.project)
@@ -267,3 +299,4 @@ def check(run: Run) -> None:
                     run.instance("R14.5", m.loc(n), f"{qual}: content return carries lossy/fields_omitted of the projection result", ok=ok)
                     if not ok:
                         run.violation("R14.5", m, qual, n, "a content format's response does not report the projection's own lossy / fields_omitted")
+    check_plain_emit_and_elementwise(run)
